@@ -305,6 +305,9 @@ var openFailures int64
 
 func positive(s sink.Sink, em *childrun.Emitter, rng *rand.Rand, sample bool) {
 	kind := []string{"ledger", "ledger", "sub", "virtual", "nonce-differential"}[rng.Intn(5)]
+	if rng.Intn(100) == 0 {
+		kind = "ledger-initial-signature-lost" // each costs the short patience set below
+	}
 	em.Progress("positive " + kind)
 	w := party.NewWorld(rng, 1+rng.Intn(3), rng.Intn(5))
 	defer w.Close()
@@ -321,6 +324,64 @@ func positive(s sink.Sink, em *childrun.Emitter, rng *rand.Rand, sample bool) {
 		}
 	}
 	switch kind {
+	case "ledger-initial-signature-lost":
+		// One side's connection drops exactly when it sends its signature on the version-0 state
+		// (it still receives the peer's). Whatever each side reports: a party that reports the
+		// channel as opened, or deposits funds for it, needs a peer that holds the same fully
+		// signed version-0 state.
+		prop := ledgerProposal(rng, w, A, B, false)
+		loser := []*party.Party{A, B}[rng.Intn(2)]
+		lk := wire.Keys(loser.Wire)
+		var refused int64
+		w.Bus.SetSendFault(func(e *wire.Envelope) error {
+			if m, ok := e.Msg.(*client.ChannelUpdateAccMsg); ok && m.Version == 0 && wire.Keys(e.Sender) == lk {
+				atomic.AddInt64(&refused, 1)
+				return fmt.Errorf("connection closed")
+			}
+			return nil
+		})
+		A.SetTimeout(1500 * time.Millisecond)
+		B.SetTimeout(1500 * time.Millisecond)
+		ch, err := propose(A, prop)
+		w.Bus.SetSendFault(nil)
+		if !w.Quiesce() {
+			s.Inconclusive("quiescence watchdog")
+			return
+		}
+		ids := map[channel.ID]bool{}
+		for _, p := range []*party.Party{A, B} {
+			for _, e := range p.Rec.Events() {
+				if e.Kind == recpr.Created {
+					ids[e.ID] = true
+				}
+			}
+		}
+		var problems []string
+		for id := range ids {
+			for i, p := range []*party.Party{A, B} {
+				peer := []*party.Party{B, A}[i]
+				if v0Enabled(peer, id) != nil {
+					continue
+				}
+				if i == 0 && err == nil && ch != nil && ch.ID() == id {
+					problems = append(problems, fmt.Sprintf("the proposer's call reported the channel as opened although the responder never obtained the fully signed version-0 state (%s's signature could not be sent)", loser.Name))
+				}
+				if i == 1 && p.Channel(id) != nil && len(p.AcceptErrors()) == 0 {
+					problems = append(problems, fmt.Sprintf("the responder's Accept reported the channel as opened although the proposer never obtained the fully signed version-0 state (%s's signature could not be sent)", loser.Name))
+				}
+				for _, c := range w.Ledger.Calls() {
+					if c.Method == "Fund" && c.Channel == id && c.Account == p.Addr.String() {
+						problems = append(problems, fmt.Sprintf("%s deposited funds for a channel whose fully signed version-0 state its peer never obtained", p.Name))
+						break
+					}
+				}
+			}
+		}
+		s.Count("openings_with_a_lost_initial_signature", 1)
+		if atomic.LoadInt64(&refused) == 0 {
+			s.Count("openings_with_a_lost_initial_signature_fault_not_reached", 1)
+		}
+		report(prop, problems)
 	case "ledger":
 		prop := ledgerProposal(rng, w, A, B, false)
 		sw := watchStall(w)
